@@ -344,3 +344,24 @@ Proof.
   - eapply (X_setitem _ _ PARAM _ g3 1 [8] [9]); reflexivity.
   - eapply (X_store _ _ PARAM _ _ 1). reflexivity.
 Qed.
+
+(* ---------------------------------------------------------------- the form used by the generated obligations *)
+
+Lemma pool_chain_ok : forall pool ws,
+  forallb writer_ok pool = true -> incl ws pool -> Forall (fun w => writer_ok w = true) ws.
+Proof.
+  intros pool ws Hp Hi. rewrite forallb_forall in Hp. apply Forall_forall. intros w Hw. apply Hp. apply Hi. exact Hw.
+Qed.
+
+(* a program accepted with NO variable assumed clean, against any chain built from a list of accepted writer classes *)
+Theorem program_sources_unchanged : forall pool prog,
+  safe [] prog = true ->
+  forallb writer_ok pool = true ->
+  forall srcs ws e0 g g',
+    incl ws pool -> wf srcs g -> run_query srcs prog ws e0 g g' ->
+    (forall i, In i srcs -> g_heap g' i = g_heap g i) /\ (forall i, In i (g_log g') -> ~ In i srcs).
+Proof.
+  intros pool prog Hs Hp srcs ws e0 g g' Hi Hw Hr.
+  apply (ownership_sound srcs [] prog ws e0 g g' Hs (pool_chain_ok pool ws Hp Hi)); [|exact Hw|exact Hr].
+  intros x i [].
+Qed.
